@@ -400,20 +400,41 @@ def outcomes (rs : Reqs) : List (Attempt × Bool) → List (Outcome × Bool)
 
 /-! ### Scripted-server scenarios (what harness-full/src/bin/client.rs runs for real) -/
 
+/-- Scheme of the server URL (`ws_connect.rs:19-24`, `is_tls`): over `wss` the TCP connection is
+    wrapped by `tls_connect` before the upgrade request is sent, so a connection that is closed or
+    answered with nonsense before the upgrade is reported by that layer (`Error::Tls`) and not by
+    tungstenite. The whole of `handshake_inner` — TCP connect, TLS handshake, upgrade — races against
+    the one `handshake_timeout` (`ws_connect.rs:105-109`). -/
+inductive Transport
+  | ws | wss
+  deriving DecidableEq, Repr
+
 structure Config where
   maxRetryCount : Nat
   maxRetryInterval : Nat
   /-- `None` = no time-out -/
   handshakeTimeout : Option Nat
   channelTimeout : Option Nat
+  transport : Transport := .ws
   deriving DecidableEq, Repr
 
 /-- What the scripted server does with one accepted TCP connection. -/
 inductive Behaviour
   /-- close at once: the WebSocket handshake fails with a transport error -/
   | refuse
-  /-- accept and never answer the HTTP upgrade -/
+  /-- accept and never answer: over `ws` the HTTP upgrade stalls, over `wss` the TLS handshake
+      (nothing comes back for the ClientHello) -/
   | stall
+  /-- (`wss`) the answer to the ClientHello stops after its first TLS record (the ServerHello): the
+      TLS handshake stalls half-way -/
+  | stallTls
+  /-- complete the TLS handshake (if any), read the upgrade request, never answer it -/
+  | stallUpgrade
+  /-- a plain-HTTP port: whatever arrives first is answered with `HTTP/1.1 400` in clear text and
+      the connection is closed. Over `ws` that is an HTTP error, over `wss` the bytes are not a TLS
+      record: `rustls` fails, tokio-rustls wraps it in an `io::Error` of kind `InvalidData`, and
+      `tls_connect` (tls/mod.rs:127-130) maps every error of the handshake to `tls::Error::TcpConnect` -/
+  | plain400
   /-- answer the upgrade with `404` -/
   | reject
   /-- complete the handshake with the real server, cut the TCP connection after `d` ms -/
@@ -441,21 +462,35 @@ structure Step where
 /-- `n` chances for the main loop to take a command from the channel, each answered. -/
 def serveAll (n : Nat) : List ConnEvent := List.replicate n (.serveNext .ok)
 
+/-- What tungstenite reports when the TCP connection under an established WebSocket is cut: over
+    `ws` the protocol error, over `wss` the `io::Error` of the TLS stream that ended without
+    `close_notify` (both retryable, both seen by the client as `Mux(WebSocket(_))`). -/
+def cutErr : Transport → WsErr
+  | .ws => .protocol .resetWithoutClosingHandshake
+  | .wss => .io .unexpectedEof
+
 /-- The attempt a step stands for; `n` bounds the number of requests that can be pending (the main
     loop gets that many chances to take a command from the channel). -/
 def Step.attempt (cfg : Config) (n : Nat) (s : Step) : Attempt :=
   let arr := s.localReqs
   let arrE := arr.map ConnEvent.arrive
   match s.beh with
-  | .refuse => .down (.tungstenite (.protocol .handshakeIncomplete)) arr
+  | .refuse =>
+    match cfg.transport with
+    | .ws => .down (.tungstenite (.protocol .handshakeIncomplete)) arr
+    -- end of file in the TLS handshake: `io::ErrorKind::UnexpectedEof` ("tls handshake eof")
+    | .wss => .down (.tls (.tcpConnect .unexpectedEof)) arr
   | .reject => .down (.tungstenite .http) arr
-  | .stall =>
+  | .plain400 =>
+    match cfg.transport with
+    | .ws => .down (.tungstenite .http) arr
+    | .wss => .down (.tls (.tcpConnect .invalidData)) arr
+  | .stall | .stallTls | .stallUpgrade =>
     match cfg.handshakeTimeout with
     | some _ => .down .handshakeTimeout arr
     | none => .hang arr
   | .closeAbrupt _ =>
-    .up .ok (arrE ++ serveAll n ++
-      [.muxEnded (some (.webSocket (some (.protocol .resetWithoutClosingHandshake))))])
+    .up .ok (arrE ++ serveAll n ++ [.muxEnded (some (.webSocket (some (cutErr cfg.transport))))])
   | .closeOrderly _ => .up .ok (arrE ++ serveAll n ++ [.muxEnded none])
   | .healthy => .up .ok (arrE ++ serveAll n)
   | .mute =>
@@ -464,7 +499,7 @@ def Step.attempt (cfg : Config) (n : Nat) (s : Step) : Attempt :=
     | none => .up .never (arrE ++ [.serveNext .never])
   | .muteCut _ =>
     .up (.muxErr .closed) (arrE ++ [.serveNext (.muxErr .closed),
-      .muxEnded (some (.webSocket (some (.protocol .resetWithoutClosingHandshake))))])
+      .muxEnded (some (.webSocket (some (cutErr cfg.transport))))])
 
 /-- Number of local connections in the whole script: no more than that many can ever be waiting. -/
 def requestCount (steps : List Step) : Nat := (steps.map (·.localReqs.length)).sum
@@ -482,6 +517,9 @@ def parseBeh (s : String) : Option Behaviour :=
   match s.splitOn ":" with
   | ["refuse"] => some .refuse
   | ["stall"] => some .stall
+  | ["tlsstall"] => some .stallTls
+  | ["upstall"] => some .stallUpgrade
+  | ["plain400"] => some .plain400
   | ["reject"] => some .reject
   | ["mute"] => some .mute
   | ["healthy"] => some .healthy
@@ -489,6 +527,10 @@ def parseBeh (s : String) : Option Behaviour :=
   | ["orderly", d] => d.toNat?.map .closeOrderly
   | ["mutecut", d] => d.toNat?.map .muteCut
   | _ => none
+
+/-- `ws`, or `wss-ca` / `wss-insecure` (how the client verifies the server does not matter here). -/
+def parseTransport (s : String) : Option Transport :=
+  if s = "ws" then some .ws else if s = "wss-ca" ∨ s = "wss-insecure" then some .wss else none
 
 /-- `<behaviour>` followed by any number of `+<request number>`. -/
 def parseStep (s : String) : Option Step :=
